@@ -104,6 +104,25 @@ def build_model():
 
 
 def check_proofs(prop_file, pinned):
+    """`prop_file` may be "C01" or "C01+C01u": several theorem files, each pinned name must be declared in one of them."""
+    files = prop_file.split("+")
+    if len(files) == 1:
+        return check_proofs1(prop_file, pinned)
+    left = list(pinned); res = []
+    for f in files:
+        src = open(os.path.join(COQ, "theories", "Props", f + ".v")).read()
+        declared = re.findall(r"^(?:Theorem|Lemma|Corollary)\s+(\w+)", src, re.M)
+        mine = [n for n in left if n in declared]
+        left = [n for n in left if n not in declared]
+        res.append(check_proofs1(f, mine))
+    problems = [p for r in res for p in r["problems"]] + ["pinned theorem %s is missing from Props/%s" % (n, prop_file) for n in left]
+    problems = list(dict.fromkeys(problems))
+    discharged = sum(r["discharged"] for r in res)
+    return dict(obligations=len(pinned), discharged=discharged if not problems else min(discharged, len(pinned) - 1),
+                problems=problems, theorems=pinned)
+
+
+def check_proofs1(prop_file, pinned):
     """Compile theories/Props/<prop_file>.v (and what it depends on), collect the Print Assumptions blocks and
     compare them with the allow-list; scan the development for forbidden vernacular.
     Returns dict(obligations, discharged, problems[list of str], theorems[list])."""
